@@ -449,6 +449,33 @@ class Escape:
                 self.clean_calls += 1
                 continue
             out |= self._via(fi, call, self._esc(f, self._bind(f, call, isinstance(call.func, ast.Attribute))))
+        # '<numeric format spec>'.format(<a str>): ValueError on every execution
+        if isinstance(call.func, ast.Attribute) and call.func.attr == 'format' and isinstance(call.func.value, ast.Constant) \
+                and isinstance(call.func.value.value, str) and not call.keywords:
+            import string as _string
+            try:
+                fields = list(_string.Formatter().parse(call.func.value.value))
+            except ValueError:
+                fields = []
+            auto = 0
+            for lit, field, spec, conv in fields:
+                if field is None:
+                    continue
+                if field == '':
+                    i, auto = auto, auto + 1
+                elif field.isdigit():
+                    i = int(field)
+                else:
+                    continue
+                if spec and spec[-1] in 'dxXobeEfFgGn%c' and not conv and i < len(call.args):
+                    a = call.args[i]
+                    certainly_str = (isinstance(a, ast.Subscript) and not isinstance(a.slice, ast.Slice) and isinstance(a.value, ast.Name)
+                                     and _stringish_local(fi.node, a.value.id)) \
+                        or (isinstance(a, ast.Name) and _stringish_local(fi.node, a.id)) \
+                        or (isinstance(a, ast.Constant) and isinstance(a.value, str))
+                    if certainly_str:
+                        out.add(self._item(fi, call, 'ValueError', '%s %s (format code %r applied to a str)' % (
+                            fi.loc(call), norm_text(call)[:70], spec), 'external'))
         # external callee that calls back into the repository (a policy / handler object registered with it); also when the
         # name happens to resolve to a repository wrapper of the same name
         if isinstance(call.func, ast.Attribute) and call.func.attr in self.callbacks:
@@ -734,6 +761,10 @@ def _stringish_local(fn, name):
                     return False
         elif kind == 'assign':
             if isinstance(v, ast.Subscript) and isinstance(v.slice, ast.Slice):
+                continue
+            if isinstance(v, ast.Constant) and isinstance(v.value, (str, bytes)):
+                continue
+            if isinstance(v, ast.JoinedStr):
                 continue
             if isinstance(v, ast.Call) and isinstance(v.func, ast.Attribute) and v.func.attr in STR_PRODUCERS:
                 continue
